@@ -144,6 +144,12 @@ def weight(job):
     return {'remove_empty': 9, 'filter-pred': 8, 'rankdata': 7, 'norm': 6, 'merge': 6, 'subsample': 8}.get(job[1][0].split(':')[0], 3)
 
 
+
+# heavy shards are split into disjoint parts of their path tree (run in parallel; together exactly the unsplit exploration)
+def slices(job, tier):
+    h, a = job
+    return 3 if h == 'pure' and a[0].split(':')[0] in ('norm', 'rankdata', 'subsample-by-id', 'filter-pred', 'remove_empty') else 1
+
 OPTS = {'quick': {'time_budget': 60}, 'thorough': {'time_budget': 900}}
 
 META = {
